@@ -212,6 +212,20 @@ def run_case(kind, p):
     m3 = M.affinematch(centers=pts, indices=idx, refineds=pts, peak_elevations=w * p.get("wscale", 7.5), peak_values=ones)
     if np.abs(m3.zero - m.zero).max() > tol or np.abs(m3.a - m.a).max() > tol:
         msgs.append("rescaling all weights changed the fit")
+    # read-only inputs (the caller's arrays are input, not scratch space): same fit, same plain optimum
+    def ro(x):
+        x = np.array(x)
+        x.setflags(write=False)
+        return x
+    try:
+        m5 = M.affinematch(centers=ro(pts), indices=ro(idx), refineds=ro(pts), peak_elevations=ro(w), peak_values=ro(ones))
+        u5 = m5.optimize()
+        if not p.get("int_pts") and not p.get("round_centers") and (
+                not np.array_equal(np.concatenate([m5.zero, m5.a, m5.b]), np.concatenate([m.zero, m.a, m.b]))
+                or not np.array_equal(np.concatenate([u5.zero, u5.a, u5.b]), np.concatenate([u.zero, u.a, u.b]))):
+            msgs.append("read-only input arrays give another fit than writable ones")
+    except Exception as e:      # noqa: BLE001
+        msgs.append(f"read-only input arrays: raised {type(e).__name__}: {e}")
     # repeated optimisation on one object must not change anything
     again = m.weighted_optimize().weighted_optimize()
     if np.abs(again.zero - m.zero).max() > tol or np.abs(again.b - m.b).max() > tol:
